@@ -673,6 +673,39 @@ fn wl_case(rt: &tokio::runtime::Runtime, origin: &std::path::Path, order: &[usiz
 				format!("whitelist {:?}, ignore pattern \"*\": {rel:?} is not whitelisted but passes", order.iter().map(|i| WL_POOL[*i]).collect::<Vec<_>>()),
 			));
 		}
+		// the same file named with a different spelling of the same path (doubled separator,
+		// `.` component, trailing separator) is still that explicitly watched file
+		if listed && order.len() <= 2 {
+			let o = origin.to_string_lossy();
+			for (how, spelled) in [("doubled-separator", format!("{o}//{rel}")), ("dot-component", format!("{o}/./{rel}")), ("trailing-separator", format!("{o}/{rel}/"))] {
+				let ev = Event { tags: vec![Tag::Path { path: PathBuf::from(&spelled), file_type: Some(FileType::File) }], metadata: Default::default() };
+				*evals += 1;
+				if !f.check_event(&ev, Priority::Normal).map_err(|e| e.to_string())? {
+					v.push((
+						format!("C11/whitelisted-file-rejected/other-spelling-of-the-path/{how}"),
+						format!("whitelist {:?}: the event naming {spelled:?} (the explicitly watched {rel:?}) is rejected", order.iter().map(|i| WL_POOL[*i]).collect::<Vec<_>>()),
+					));
+				}
+			}
+		}
+	}
+	// ... and the other way round: the whitelist entry is spelled unusually, the event plainly
+	if order.len() == 1 {
+		let rel = WL_POOL[order[0]];
+		let o = origin.to_string_lossy();
+		for (how, spelled) in [("doubled-separator", format!("{o}//{rel}")), ("dot-component", format!("{o}/./{rel}")), ("trailing-separator", format!("{o}/{rel}/"))] {
+			let g = rt
+				.block_on(GlobsetFilterer::new(origin, vec![], vec![("*".to_string(), None)], vec![PathBuf::from(&spelled)], vec![], vec![]))
+				.map_err(|e| format!("GlobsetFilterer::new failed for whitelist [{spelled:?}]: {e}"))?;
+			let ev = Event { tags: vec![Tag::Path { path: origin.join(rel), file_type: Some(FileType::File) }], metadata: Default::default() };
+			*evals += 1;
+			if !g.check_event(&ev, Priority::Normal).map_err(|e| e.to_string())? {
+				v.push((
+					format!("C11/whitelisted-file-rejected/other-spelling-of-the-path/whitelist-{how}"),
+					format!("whitelist [{spelled:?}]: the event naming {:?} is rejected", origin.join(rel)),
+				));
+			}
+		}
 	}
 	Ok(v)
 }
